@@ -86,7 +86,7 @@ def gen_tree(rng, C, depth=0, pool=None):
                 p.requires_grad_(False)
         elif ps and fr < 0.35:
             ps[-1].requires_grad_(False)
-        elif ps and fr < 0.42 and pool:
+        elif ps and fr < 0.5 and pool:
             # tie the weight to an earlier module's (possibly frozen) weight of the same shape
             for o in pool:
                 w = getattr(o, 'weight', None)
@@ -213,10 +213,20 @@ def run(ctx):
     rng = ctx.rng
     C = classes()
     lines, pend = [], []
-    for _ in range(ctx.budget(500, 5000)):
-        root = gen_tree(rng, C)
-        pats = gen_patterns(rng)
-        neox = rng.random() < 0.25
+    def tied_frozen():
+        # directed corpus: weight tying with the shared parameter frozen (decoder.weight = encoder.weight)
+        nn = torch.nn
+        enc, dec, other = nn.Linear(3, 3), nn.Linear(3, 3), nn.Linear(3, 2)
+        dec.weight = enc.weight
+        enc.weight.requires_grad_(False)
+        b = C['Block']()
+        for nm, k in rng.sample([('encoder', enc), ('decoder', dec), ('head', other)], 3):
+            setattr(b, nm, k)
+        return b
+    for it_ in range(ctx.budget(500, 5000)):
+        root = tied_frozen() if it_ < 3 else gen_tree(rng, C)
+        pats = [] if it_ < 3 else gen_patterns(rng)
+        neox = rng.random() < 0.25 and it_ >= 3
         tree, ids, names, clsnames = encode(root)
         case = {'tree': tree, 'patterns': pats, 'neox': neox}
         try:
